@@ -195,25 +195,72 @@ LITE_CALLS = ['print', 'len', 'range']
 LITE_ASTS = ['Call', 'Name', 'For', 'Compare', 'BinOp']
 
 
-def _lite(code):
-    """(oracle, observed) counts for a small battery on the current submission"""
+def _lite(code, report=None):
+    """(oracle, observed) counts for a small battery on the current submission (of the given report)"""
+    kw = {} if report is None else {'report': report}
     tree = ast.parse(code)
     want, got = [], []
     for sym in LITE_OPS:
         want.append(len(op_nodes(tree, sym)))
-        got.append(len(find_operation(sym)))
+        if report is None:
+            got.append(len(find_operation(sym)))
+        else:
+            from pedal.cait.cait_api import parse_program
+            got.append(len(find_operation(sym, parse_program(report=report))))
+            want.append(want[-1] > 0)
+            got.append(bool(S.prevent_operation(sym, **kw)))
     for name in LITE_CALLS:
         want.append(sum(1 for nd in ast.walk(tree) if isinstance(nd, ast.Call) and (
             (isinstance(nd.func, ast.Name) and nd.func.id == name) or
             (isinstance(nd.func, ast.Attribute) and nd.func.attr == name))))
-        got.append(len(find_function_calls(name)))
-        fired = bool(S.prevent_function_call(name))
+        got.append(len(find_function_calls(name, **kw)))
+        fired = bool(S.prevent_function_call(name, **kw))
         want.append(want[-1] > 0)
         got.append(fired)
     for nm in LITE_ASTS:
         want.append(sum(1 for nd in ast.walk(tree) if type(nd).__name__ == nm))
-        got.append(len(find_asts(nm)))
+        got.append(len(find_asts(nm, **kw)))
+        if report is not None:
+            want.append(want[-1] < 1)
+            got.append(bool(S.ensure_ast(nm, **kw)))
     return want, got
+
+
+def body_own_report(ctx):
+    """The battery on a Report of the caller's own while the global report holds another program: every count comes
+    from the own program, every feedback lands on the own report."""
+    from pedal.core.report import Report
+    pool = 32
+    small = [21, 22, 0, 7, 29, 33, 24, 11]        # print, calls, comparisons, arithmetic, loop, comprehension, import, bool
+    a = STM[ctx.choose(pool, 'own-submission')] + "\n" + STM[small[ctx.choose(len(small), 'own-submission-2')]] + "\n"
+    b = STM[small[ctx.choose(len(small), 'global-submission')]] + "\n"
+    order = ctx.choose(2, 'global-battery-first')
+    case = {'own': a, 'global': b, 'global_battery_first': bool(order)}
+    ctx.observe(repr(case))
+    ctx.set_sample(case)
+    ctx.mark_nontrivial(repr(case))
+    cmds.clear_report()
+    cmds.contextualize_report(b)
+    mine = Report()
+    cmds.contextualize_report(a, report=mine)
+    if order:
+        _lite(b)
+    g0 = (len(MAIN_REPORT.feedback), len(MAIN_REPORT.ignored_feedback))
+    ctx.step('battery with report=own')
+    try:
+        want, got = _lite(a, report=mine)
+    except Exception as e:
+        ctx.fail({'symptom': 'check with report=own raised', 'exception': type(e).__name__}, case=case, message=str(e)[:200])
+        return
+    ctx.evaluated(len(want))
+    if want != got:
+        ctx.fail({'symptom': 'checks on an own report disagree with its tree'}, case=case, want=want, got=got)
+    if (len(MAIN_REPORT.feedback), len(MAIN_REPORT.ignored_feedback)) != g0:
+        ctx.fail({'symptom': 'checks on an own report attached feedback to the global report'}, case=case)
+    wb, gb = _lite(b)
+    if wb != gb:
+        ctx.fail({'symptom': 'checks on the global report disagree with its tree after checks on an own report'}, case=case,
+                 want=wb, got=gb)
 
 
 def body_histories(ctx):
@@ -297,7 +344,9 @@ def phases(tier):
     if tier == 'quick':
         return [Phase('programs', make_body(2, 24), setup=_setup, chunk=60,
                       describe='all programs of <=2 statements (second statement from the first 24)'),
-                Phase('histories', body_histories, setup=_setup, chunk=200,
+                Phase('own-report', body_own_report, setup=_setup, chunk=100,
+              describe='the battery with report=<caller-owned Report> while the global report holds another program'),
+        Phase('histories', body_histories, setup=_setup, chunk=200,
                       describe='battery on the submission, other code parsed explicitly / set_source+restore_code, battery again')]
     return [Phase('histories', body_histories, setup=_setup, chunk=200,
                   describe='battery on the submission, other code parsed explicitly / set_source+restore_code, battery again'),
